@@ -145,4 +145,6 @@ def check(fx, rep, tier):
             (rep.ok if i.ok else rep.bad)('R07.5', i.key, i.where, i.msg if i.ok else i.msg + ' - a receive restarted after an abandonment takes the wrong branch', i.detail)
     if not n5:
         rep.bad('R07.5', 'anchor', '-', 'read-loop guard instances not found')
+    import imports as _imp
+    _imp.layer(fx, rep, 'C07')
     return META
